@@ -191,6 +191,9 @@ func (fr *Frame) callWith0(st *State, c *ssa.CallCommon, args []Val, site ssa.In
 	}
 	fr.callOrd[key]++
 	ord := fr.callOrd[key]
+	if so, ok := fr.siteOrdinal(site, key); ok {
+		ord = so // ordinal of the call site in source order (not in execution order)
+	}
 	// caller-side assertions of the contract being verified
 	if fr.top && fr.contract != nil && !vc.quiet {
 		for _, ca := range fr.contract.CallAsrt {
@@ -332,6 +335,64 @@ func (fr *Frame) canInline(fn *ssa.Function) bool {
 }
 
 func (fr *Frame) parent() *Frame { return fr.up }
+
+// siteOrdinal: 1-based position of a call site among the call sites of the same
+// callee in this function, in source order.
+func (fr *Frame) siteOrdinal(site ssa.Instruction, key string) (int, bool) {
+	if site == nil {
+		return 0, false
+	}
+	if fr.siteOrd == nil {
+		fr.siteOrd = map[ssa.Instruction]int{}
+		byKey := map[string][]ssa.Instruction{}
+		for _, b := range fr.fn.Blocks {
+			for _, in := range b.Instrs {
+				ci, ok := in.(ssa.CallInstruction)
+				if !ok {
+					continue
+				}
+				c := ci.Common()
+				k := ""
+				switch {
+				case c.IsInvoke():
+					k = ifaceMethodKey(c)
+				default:
+					switch v := c.Value.(type) {
+					case *ssa.Function:
+						f := v
+						if f.Origin() != nil {
+							f = f.Origin()
+						}
+						k = funcKey(f)
+					case *ssa.MakeClosure:
+						k = funcKey(v.Fn.(*ssa.Function))
+					case *ssa.Builtin:
+						k = "builtin." + v.Name()
+					case *ssa.UnOp:
+						if g, ok := v.X.(*ssa.Global); ok && g.Pkg != nil {
+							k = g.Pkg.Pkg.Name() + "." + g.Name()
+						}
+					}
+				}
+				byKey[k] = append(byKey[k], in)
+			}
+		}
+		for _, ins := range byKey {
+			sort.SliceStable(ins, func(i, j int) bool {
+				pi, pj := ins[i].Pos(), ins[j].Pos()
+				if pi != pj {
+					return pi < pj
+				}
+				return ins[i].Block().Index < ins[j].Block().Index
+			})
+			for i, in := range ins {
+				fr.siteOrd[in] = i + 1
+			}
+		}
+	}
+	o, ok := fr.siteOrd[site]
+	return o, ok
+}
 
 // tryInline inlines a callee; a callee outside the modelled subset is reported
 // through the third result instead of aborting the caller's verification.
@@ -659,8 +720,8 @@ func (fr *Frame) applyContract(st *State, ct *Contract, callee *ssa.Function, si
 	post := &SEnv{vc: vc, fr: fr, fn: envFn, cur: st, old: old, vars: env.vars, ct: ct, assumeMode: true}
 	post.results = splitResults(vc, res, sig)
 	for _, en := range ct.Ensures {
-		if mentionsCallHistory(en.Expr) {
-			continue // about the callee's own call history: not visible to callers
+		if mentionsCallHistory(en.Expr) || ct.Lemmas[en] {
+			continue // about the callee's own call history / locals: not visible to callers
 		}
 		vc.assume(st, post.evalBool(en.Expr))
 	}
@@ -1100,6 +1161,18 @@ func (vc *VC) frameGoalSkip(old, cur *State, ts []modTarget, skip map[string]boo
 		for _, t := range ts {
 			switch t.kind {
 			case "obj":
+				if t.kinds != nil {
+					// the object is only written through values of these kinds
+					has := false
+					for _, tk := range t.kinds {
+						if tk == k {
+							has = true
+						}
+					}
+					if !has {
+						continue
+					}
+				}
 				exp = tSto(exp, t.ref, tSel(hn, t.ref))
 			case "slot":
 				// overwrite the listed slots of one object without duplicating terms
@@ -1214,6 +1287,30 @@ func (fr *Frame) loopHead(st *State, li *loopInfo) {
 	// 2. havoc what the loop writes
 	pre := st.clone()
 	eff := fr.loopEffects(pre, li)
+	if ls.HasWrites && fr.top && !vc.quiet {
+		// syntactic obligation: locals declared outside the loop that it assigns
+		allowed := map[string]bool{}
+		for _, w := range ls.Writes {
+			allowed[w] = true
+		}
+		var extra []string
+		for _, a := range eff.locals {
+			if li.blocks[a.Block()] || a.Comment == "" || a.Comment == "rangeindex" || strings.HasPrefix(a.Comment, "range") {
+				continue // declared inside the loop / synthetic
+			}
+			if !allowed[a.Comment] {
+				extra = append(extra, a.Comment)
+			}
+		}
+		sort.Strings(extra)
+		stt := "unsat"
+		if len(extra) > 0 {
+			stt = "sat"
+		}
+		vc.obls = append(vc.obls, &Obligation{Name: fmt.Sprintf("%s/loop%d/writes", vc.fnKey, li.ord), Kind: "scan", Goal: tTrue, Func: vc.fnKey,
+			Pos: vc.p.pos(vc.curPos), Clause: "loop assigns only: " + strings.Join(ls.Writes, ", "),
+			Result: &SolverResult{Status: stt, Solver: "syntactic-scan", Output: "also assigns: " + strings.Join(extra, ", ")}})
+	}
 	locals := eff.locals
 	for _, a := range locals {
 		lay := vc.p.lay.of(a.Type().(*types.Pointer).Elem())
